@@ -20,6 +20,9 @@ KnownOverflow(c) == c.m = "regex" /\ Len(c.a) >= 1 /\ c.a[1].k = "badpat" /\ c.a
 KnownUuidVersion(sch) == sch.t = "uuid4" /\ IsSome(sch.value) /\ Base(Get(sch.value)).k = "uuid"
                          /\ Base(Get(sch.value)).ver # 4
 
+KnownNanValue(sch) == sch.t = "float" /\ IsSome(sch.value) /\ Base(Get(sch.value)).k = "float"
+                      /\ Base(Get(sch.value)).sp = "nan"
+
 Redeclares(e) == \E p \in DeclaredBy(e.recv.t, e.call) : IsDeclared(e.recv, p)
 
 Verdict(e) ==
@@ -30,11 +33,13 @@ Verdict(e) ==
   ELSE IF e.exc = "" /\ Redeclares(e) THEN "FAIL:redeclare_accepted:"
   ELSE IF e.exc = "" /\ e.hasfixed /\ ~e.fixed_ok
   THEN "FAIL:fixed_value_rejected_by_validate:" \o
-       (IF e.rep /\ KnownUuidVersion(Get(e.result)) THEN "uuid4.non_v4_value_accepted" ELSE "")
+       (IF e.rep /\ KnownUuidVersion(Get(e.result)) THEN "uuid4.non_v4_value_accepted"
+        ELSE IF e.rep /\ KnownNanValue(Get(e.result)) THEN "float.nan_value_rejects_itself" ELSE "")
   ELSE IF e.exc = "" /\ e.rep /\ IsSome(FixedValue(Get(e.result)))
           /\ ~Conforms(Get(e.result), Get(FixedValue(Get(e.result))))
   THEN "FAIL:fixed_value_nonconforming_by_spec:" \o
-       (IF KnownUuidVersion(Get(e.result)) THEN "uuid4.non_v4_value_accepted" ELSE "")
+       (IF KnownUuidVersion(Get(e.result)) THEN "uuid4.non_v4_value_accepted"
+        ELSE IF KnownNanValue(Get(e.result)) THEN "float.nan_value_rejects_itself" ELSE "")
   ELSE "OK"
 
 Drift(e) ==
